@@ -60,26 +60,41 @@ def do_call(shape: dict, b: LBuilt, call: dict, twin: bool, rec: SweepRecorder |
     retain = bool(call["retain"])
     ts = [b.node(i) for i in roots]
     ins = [b.node(i) for i in targets]
+    # presentation of the arguments: by keyword, or positionally in the documented order
+    #   backward(tensors, aggregator, inputs, retain_graph, parallel_chunk_size)
+    #   mtl_backward(losses, features, aggregator, tasks_params, shared_params, retain_graph, parallel_chunk_size)
+    positional = bool(call.get("positional"))
     try:
         if fn == "T" or twin:
             torch.autograd.backward(ts, grad_tensors=[torch.ones_like(t) for t in ts], inputs=ins,
                                     retain_graph=retain)
         elif fn == "B":
+            def go():
+                if positional:
+                    backward(ts, Sum(), ins, retain, k)
+                else:
+                    backward(ts, Sum(), inputs=ins, retain_graph=retain, parallel_chunk_size=k)
             if rec is not None:
                 with rec:
-                    backward(ts, Sum(), inputs=ins, retain_graph=retain, parallel_chunk_size=k)
+                    go()
             else:
-                backward(ts, Sum(), inputs=ins, retain_graph=retain, parallel_chunk_size=k)
+                go()
         elif fn == "M":
             kw = dict(losses=[b.node(i) for i in shape["losses"]], features=[b.node(i) for i in sorted(shape["feats"])],
                       aggregator=Sum(), tasks_params=[[b.node(i) for i in tp] for tp in shape["taskp"]],
                       shared_params=[b.node(i) for i in sorted(shape["shared"])], retain_graph=retain,
                       parallel_chunk_size=k)
+
+            def go():
+                if positional:
+                    mtl_backward(*kw.values())
+                else:
+                    mtl_backward(**kw)
             if rec is not None:
                 with rec:
-                    mtl_backward(**kw)
+                    go()
             else:
-                mtl_backward(**kw)
+                go()
         else:
             raise ValueError(fn)
         return "ok", None
@@ -117,7 +132,8 @@ def run_history(item: dict) -> dict:
     torch.set_num_threads(1)
     shape, calls = item["shape"], item["calls"]
     expect = item.get("expect")                   # per call [outcome, freed] from TLC (S->C), or None
-    tj, tw = LBuilt(shape["graph"]), LBuilt(shape["graph"])
+    zeros = item.get("zeros", [])
+    tj, tw = LBuilt(shape["graph"], zeros=zeros), LBuilt(shape["graph"], zeros=zeros)
     out = {"item": item, "machinery": None, "steps": [], "fails": [], "evals": 0}
     msg = tj.check_shape()
     if msg:
@@ -180,6 +196,19 @@ def run_history(item: dict) -> dict:
     return out
 
 
+def present_values_and_arguments(item: dict, i: int) -> None:
+    """Seeded presentations that the model abstracts from (graph life does not depend on them): which leaves
+    hold the value zero (then exactly-zero gradients flow: a head that is switched off) and whether the
+    arguments are passed by keyword or positionally in the documented order."""
+    taskp = [tp for tp in item["shape"]["taskp"] if tp]
+    if i % 3 == 1 and taskp:
+        item["zeros"] = sorted(taskp[-1])                            # the last head is dead
+    elif i % 3 == 2 and taskp:
+        item["zeros"] = sorted({p for tp in taskp for p in tp})      # every head is dead
+    item["calls"] = [dict(c, positional=True) if (i + j) % 4 == 0 and c["fn"] != "T" else c
+                     for j, c in enumerate(item["calls"])]
+
+
 def shape_of(scn: dict) -> dict:
     return {"graph": [{"k": nd["k"], "c": nd["c"], "sz": nd["sz"]} for nd in scn["graph"]], "feats": scn["feats"],
             "losses": scn["losses"], "taskp": scn["taskp"], "shared": scn["shared"]}
@@ -203,7 +232,9 @@ def hist_key(item: dict, upto: int | None = None) -> str:
 def describe(item: dict) -> str:
     g = " ".join(f"{i}:{nd['k']}" + (f"({','.join(map(str, nd['c']))})" if nd["c"] else "")
                  for i, nd in enumerate(item["shape"]["graph"], start=1))
-    return f"graph [{g}] history " + " ; ".join(call_text(c) for c in item["calls"])
+    pres = (f" (leaves with value zero: {item['zeros']})" if item.get("zeros") else "") + \
+           (" (arguments passed positionally)" if any(c.get("positional") for c in item["calls"]) else "")
+    return f"graph [{g}] history " + " ; ".join(call_text(c) for c in item["calls"]) + pres
 
 
 def nontrivial(item: dict) -> bool:
@@ -310,6 +341,7 @@ def random_items(seed: int, n: int) -> list[dict]:
             fn = "B" if r < 0.75 else "T"
             calls.append({"fn": fn, "roots": roots, "targets": targets, "k": k if fn == "B" else 0, "retain": retain})
         items.append({"shape": sh, "calls": calls})
+        present_values_and_arguments(items[-1], len(items) - 1)
     return items
 
 
@@ -453,6 +485,8 @@ def run(ctx: Ctx, replay: str | None) -> None:
             seen.add(key)
             items.append(it)
     items.sort(key=hist_key)
+    for i, it in enumerate(items):
+        present_values_and_arguments(it, i)
     results = pmap(run_history, items, chunksize=8)
     for r in results:
         judge(ctx, r)
